@@ -101,6 +101,7 @@ class MySQLQueryBuilder(QueryBuilder):
         newone = super().__copy__()
         newone._duplicate_updates = copy(self._duplicate_updates)
         newone._ignore_duplicates = copy(self._ignore_duplicates)
+        newone._modifiers = copy(self._modifiers)
         return newone
 
     @builder
@@ -431,6 +432,8 @@ class PostgreSQLQueryBuilder(QueryBuilder):
         newone = super().__copy__()
         newone._returns = copy(self._returns)
         newone._on_conflict_do_updates = copy(self._on_conflict_do_updates)
+        newone._on_conflict_fields = copy(self._on_conflict_fields)
+        newone._distinct_on = copy(self._distinct_on)
         return newone
 
     @builder
@@ -808,6 +811,7 @@ class ClickHouseQueryBuilder(QueryBuilder):
     def __copy__(self) -> "ClickHouseQueryBuilder":
         newone = super().__copy__()
         newone._limit_by = copy(self._limit_by)
+        newone._distinct_on = copy(self._distinct_on)
         return newone
 
     @builder
